@@ -38,7 +38,7 @@ CHECKS = {
              "terminates with LF; (e) Gfa(str)/Gfa(list) hand every line to "
              "add_line. Also decided: custom records and S lines find their "
              "tags for every tag the grammar allows (blanks, punctuation) "
-             "and keep a tag-shaped name positional; a stored tag spelled "
+             "and keep a tag-shaped name positional; when a caller can select the non-validating encoders, unsafe_encode takes every class the decoders return; a stored tag spelled "
              "like a field alias is written as that tag; a path requires "
              "exactly the links between consecutive segments (none for one "
              "segment, the closing link only when n > 1 overlaps close the "
@@ -123,7 +123,7 @@ CHECKS = {
              "E and F lines; and that Gfa.validate runs the four structural "
              "validators plus rGFA validation exactly for the rgfa dialect and "
              "is called by Gfa()/read_file at vlevel >= 1. " 
-             "Also decided: the dispatch table of Alignment._from_string over the first non-digit character, with the version and valid flags forwarded to the CIGAR parser. The S-line syntax sniffing counts every grammar-valid tag as a tag and a tag-shaped name as a name; `$` on the external coordinates of a fragment is never compared with the segment length.",
+             "Also decided: the dispatch table of Alignment._from_string over the first non-digit character, with the version and valid flags forwarded to the CIGAR parser. The S-line syntax sniffing counts every grammar-valid tag as a tag and a tag-shaped name as a name; `$` on the external coordinates of a fragment is never compared with the segment length. The alignment datatypes validate a decoded CIGAR with the version of the datatype.",
         note="Undecided: acceptance of whole concrete documents; the "
              "hand-written alignment scanner used by alignment_gfa2; JSON "
              "well-formedness (json.loads is a non-regular residual, only its "
@@ -201,7 +201,7 @@ CHECKS = {
              "under a guard; Writer.to_list catches every exception around "
              "each field it encodes; a regular expression is never applied "
              "to the raw identifier of a line that may be unnamed; files "
-             "are decoded inside a handler; the reserved record type.",
+             "are decoded inside a handler; the reserved record type. At vlevel 0 set() refuses the name of a member of the line with a library error.",
         note="Undecided: exceptions from values of an unexpected type, text "
              "reaching a primitive through a field of a stored line (the "
              "taint does not follow object fields), RecursionError on deep "
@@ -246,7 +246,7 @@ CHECKS = {
              "and every other class falls through to the raising default; "
              "_register_line only raises the counter, unused_name returns its "
              "successor; the finder tables (line, segment, try_get_*). " 
-             "Also decided: no line class defines __bool__/__len__, since the duplicate search is tested by truth value (lines_are_truthy); a rename onto the identifier of a placeholder line is refused. The Gfa class defines neither, since the owner of a line is truth-tested on the rename path.",
+             "Also decided: no line class defines __bool__/__len__, since the duplicate search is tested by truth value (lines_are_truthy); a rename onto the identifier of a placeholder line is refused. The Gfa class defines neither, since the owner of a line is truth-tested on the rename path. Assignment through the class-level accessor of a field goes through the rename path whether or not the field holds a value.",
         note="Undecided: that lookups return the right line after arbitrary "
              "histories; 'changes nothing else' on rename. Known findings: "
              "the ID tags of L and C lines are not in the searched namespace. "
@@ -327,7 +327,7 @@ CHECKS = {
              "and store nothing; the duplicate-link path tolerates exactly the "
              "complement and searches with the complement allowed; a path "
              "records '-' exactly for a complement match. " 
-             "Also decided: CIGAR.complement on alignments of 0, 1 and 2 operations; path link orientation over the whole link domain. A path does not adopt a stored link whose overlap is another alignment; two segment ends are equal exactly when they name the same segment and side, whatever object stands for the segment.",
+             "Also decided: CIGAR.complement on alignments of 0, 1 and 2 operations; path link orientation over the whole link domain. A path does not adopt a stored link whose overlap is another alignment; two segment ends are equal exactly when they name the same segment and side, whatever object stands for the segment. ",
         note="Undecided: the laws on concrete multi-operation CIGAR values "
              "beyond the per-code table, arrival-order effects, the "
              "orientation flip on placeholder replacement "
@@ -427,7 +427,7 @@ CHECKS = {
              "build from text is constructed with the Gfa's vlevel, for every "
              "record type and version state (write-time validation at >= 2 is "
              "decided under C20). " 
-             "Also decided: field_to_s validates what it writes exactly at level >= 2 for stored text and for encoded objects (write_threshold); validate_field validates the stored value itself, not a lazily decoded copy; Field._validate_gfa_field hands every class of value to the validator of its datatype (no class is accepted unasked); a tag without recorded datatype, and a tag created with set(), are validated at level 3 as the default datatype of the value.",
+             "Also decided: field_to_s validates what it writes exactly at level >= 2 for stored text and for encoded objects (write_threshold); validate_field validates the stored value itself, not a lazily decoded copy; Field._validate_gfa_field hands every class of value to the validator of its datatype (no class is accepted unasked); a tag without recorded datatype, and a tag created with set(), are validated at level 3 as the default datatype of the value. A lazy decode stores its result at every level; every write validates what is stored at the time of that write.",
         note="Undecided: equality of the written text across levels and "
              "monotonic acceptance on concrete documents. " + TRUSTED),
     "C19": dict(
@@ -449,7 +449,7 @@ CHECKS = {
              "forms of both sides (so identifiers equal live references). A "
              "mutable value taking the 'share' action is state shared between "
              "clone and original, hence necessary. " 
-             "Also decided: attributes set only by the construction from text (custom records) reach the clone as new objects; the value classes clone() shares are immutable (no mutating method, no outside assignment); after every history of set / set None / delete / accessor assignment (length <= 3, levels 0-3) that stores a dict or list in a custom tag, clone() does not share it; no function on the decoding path that may return a mutable object is memoised; the dictionary construction clone() uses validates nothing and cannot raise; register_extension lists every declared reference field in REFERENCE_FIELDS.",
+             "Also decided: attributes set only by the construction from text (custom records) reach the clone as new objects; the value classes clone() shares are immutable (no mutating method, no outside assignment); after every history of set / set None / delete / accessor assignment (length <= 3, levels 0-3) that stores a dict or list in a custom tag, clone() does not share it; no function on the decoding path that may return a mutable object is memoised; the dictionary construction clone() uses validates nothing and cannot raise; register_extension lists every declared reference field in REFERENCE_FIELDS. A value class clone() shares has no mutable builtin base.",
         note="Undecided: aliasing created after cloning, equality on concrete "
              "values. The mutable/immutable classification of value classes "
              "is in spec.py and trusted. " + TRUSTED),
@@ -473,7 +473,7 @@ CHECKS = {
              "are reported by validate_decoded; decoder classes are accepted "
              "by the encoder; field_to_s validates what it writes exactly at "
              "vlevel >= 2. " 
-             "Also decided: delete() forgets the datatype of the deleted tag; classes the encoder accepts pass validate_decoded without a foreign exception. The only tag-shaped field alias is LN on GFA2 segments (reviewed table); the S-line syntax sniffing reads back every tag the library can write.",
+             "Also decided: delete() forgets the datatype of the deleted tag; classes the encoder accepts pass validate_decoded without a foreign exception. The only tag-shaped field alias is LN on GFA2 segments (reviewed table); the S-line syntax sniffing reads back every tag the library can write. compute_subtype follows the present content of an array parsed from text and then edited, and gives no foreign exception on an empty array; no member of the line classes has the shape of a tag name; a tag inherited on a group merge keeps its datatype; every write validates what is stored at the time of that write.",
         note="Undecided: decode(encode(v)) == v on concrete values (a value "
              "law). The output languages of the CPython primitives are "
              "transcribed in rules/c20.py and trusted. Known finding: scalar "
